@@ -11,7 +11,7 @@ OptSet == {[o |-> "I", r |-> R1], [o |-> "I", r |-> Braces], [o |-> "n", k |-> 1
 \* templates: initial-argument lists with zero, one or many occurrences of R / {}
 Templates == { <<>>, << <<82>> >>, << <<120>>, <<82, 45, 82>> >>, << <<123, 125>>, <<120, 82, 121>> >>, << <<97>> >>, << <<82, 82>>, <<123, 125, 123, 125>> >>,
                << <<123, 123, 125, 125>>, <<123, 123, 125>> >> }       \* "{{}}" "{{}": R right after a partial start of R
-LineSet == { <<97>>, <<98, 32, 99>>, <<82>>, <<>>, <<100, 32>> }
+LineSet == { <<97>>, <<98, 32, 99>>, <<82>>, <<>>, <<100, 32>>, <<99, 233>> }      \* the last one is not valid UTF-8
 
 VARIABLE inp
 Init == inp \in [opts : SeqsUpTo(OptSet, MAXOPTS), init : Templates, lines : SeqsUpTo(LineSet, MAXLINES), final_nl : BOOLEAN]
